@@ -60,6 +60,8 @@
 (*   if_cond_untyped       the condition of if-then-else may have any type *)
 (*   closed_records_widen  two closed records one of which has all the     *)
 (*                         fields of the other meet in the wider one       *)
+(*   record_field_clash_hidden  records that disagree on the type of a     *)
+(*                         common field still meet (the field unknown)     *)
 (***************************************************************************)
 EXTENDS LSem
 
@@ -70,13 +72,15 @@ TNum  == <<"Num">>
 TStr  == <<"Str">>
 TBool == <<"Bool">>
 TBad  == <<"Bad">>
+THid  == <<"Hid">>     \* deviation record_field_clash_hidden only: a clash that stays unreported
 TL(t) == <<"L", t>>
 TR(fs) == <<"R", fs>>
 TO(fs) == <<"O", fs>>
 NoFields == ("$" :> TNum)
 Tg(t) == t[1]
 
-TypingDeviations == {"neq_untyped", "if_cond_untyped", "closed_records_widen"}
+TypingDeviations == {"neq_untyped", "if_cond_untyped", "closed_records_widen",
+                     "record_field_clash_hidden"}
 
 IsRec(t) == Tg(t) \in {"R", "O"}
 ElemOf(t) == IF Tg(t) = "L" THEN t[2] ELSE TAny
@@ -90,26 +94,56 @@ IsGround(t) ==
     [] Tg(t) = "R" -> \A f \in Fields(t) : IsGround(t[2][f])
     [] OTHER -> FALSE
 
+(* A type the program has settled: a ground type, or a record of which the  *)
+(* program only ever addresses some fields - an open record {f: t, ...}     *)
+(* with settled t (the parameter of `Price(r) = r.amount * 2`).  Callers    *)
+(* may pass any record that has those fields; what they pass never changes  *)
+(* the callee's own column type.                                            *)
+RECURSIVE Settled(_)
+Settled(t) ==
+  CASE Tg(t) \in {"Num", "Str", "Bool"} -> TRUE
+    [] Tg(t) = "L" -> Tg(t[2]) # "L" /\ Settled(t[2])
+    [] Tg(t) = "R" -> \A f \in Fields(t) : Settled(t[2][f])
+    [] Tg(t) = "O" -> Fields(t) # {} /\ \A f \in Fields(t) : Settled(t[2][f])
+    [] OTHER -> FALSE
+
+(* What `ShowPredicateTypes` can print of a type: open and closed records   *)
+(* are written alike.                                                       *)
+RECURSIVE Printed(_)
+Printed(t) ==
+  CASE Tg(t) = "L" -> TL(Printed(t[2]))
+    [] Tg(t) \in {"R", "O"} -> TR([f \in DOMAIN t[2] |-> Printed(t[2][f])])
+    [] OTHER -> t
+
 (* Meet: the most general type that is both a and b; Bad if there is none. *)
-(* wide (deviation "closed_records_widen" only): two closed records one of  *)
-(* which has all the fields of the other meet in the wider one.             *)
+(* dv: deviations in force (classification only; the property is dv = {}):  *)
+(*   closed_records_widen     two closed records one of which has all the   *)
+(*                            fields of the other meet in the wider one;    *)
+(*   record_field_clash_hidden  two records that disagree on the type of a  *)
+(*                            common field still meet (that field: Hid,     *)
+(*                            which absorbs everything and is never settled) *)
 RECURSIVE MeetD(_, _, _)
-MeetRec(a, b, wide) ==
-  LET da == DOMAIN a[2]
+MeetRec(a, b, dv) ==
+  LET wide == "closed_records_widen" \in dv
+      da == DOMAIN a[2]
       db == DOMAIN b[2]
       shape == IF Tg(a) = "R" /\ Tg(b) = "R"
                THEN (IF da = db \/ (wide /\ (da \subseteq db \/ db \subseteq da)) THEN "R" ELSE "Bad")
                ELSE IF Tg(a) = "R" THEN (IF db \subseteq da THEN "R" ELSE "Bad")
                ELSE IF Tg(b) = "R" THEN (IF da \subseteq db THEN "R" ELSE "Bad")
                ELSE "O"
-      fs == [f \in da \cup db |->
-               IF f \in da /\ f \in db THEN MeetD(a[2][f], b[2][f], wide)
-               ELSE IF f \in da THEN a[2][f] ELSE b[2][f]]
+      fs0 == [f \in da \cup db |->
+                IF f \in da /\ f \in db THEN MeetD(a[2][f], b[2][f], dv)
+                ELSE IF f \in da THEN a[2][f] ELSE b[2][f]]
+      fs == IF "record_field_clash_hidden" \in dv
+            THEN [f \in DOMAIN fs0 |-> IF Tg(fs0[f]) = "Bad" THEN THid ELSE fs0[f]]
+            ELSE fs0
   IN IF shape = "Bad" \/ \E f \in DOMAIN fs : Tg(fs[f]) = "Bad" THEN TBad
      ELSE <<shape, fs>>
 
-MeetD(a, b, wide) ==
+MeetD(a, b, dv) ==
   IF a = b THEN a
+  ELSE IF Tg(a) = "Hid" \/ Tg(b) = "Hid" THEN THid
   ELSE IF Tg(a) = "Bad" \/ Tg(b) = "Bad" THEN TBad
   ELSE IF Tg(a) = "Any" THEN b
   ELSE IF Tg(b) = "Any" THEN a
@@ -118,12 +152,12 @@ MeetD(a, b, wide) ==
   ELSE IF Tg(a) = "Seq" THEN (IF Tg(b) \in {"Str", "L"} THEN b ELSE TBad)
   ELSE IF Tg(b) = "Seq" THEN (IF Tg(a) \in {"Str", "L"} THEN a ELSE TBad)
   ELSE IF Tg(a) = "L" /\ Tg(b) = "L"
-  THEN LET e == MeetD(MeetD(a[2], b[2], wide), TSing, wide) IN IF Tg(e) = "Bad" THEN TBad ELSE TL(e)
-  ELSE IF IsRec(a) /\ IsRec(b) THEN MeetRec(a, b, wide)
+  THEN LET e == MeetD(MeetD(a[2], b[2], dv), TSing, dv) IN IF Tg(e) = "Bad" THEN TBad ELSE TL(e)
+  ELSE IF IsRec(a) /\ IsRec(b) THEN MeetRec(a, b, dv)
   ELSE TBad
 
-Meet(a, b) == MeetD(a, b, FALSE)
-MeetC(ctx, a, b) == MeetD(a, b, "closed_records_widen" \in ctx.dev)
+Meet(a, b) == MeetD(a, b, {})
+MeetC(ctx, a, b) == MeetD(a, b, ctx.dev)
 
 RECURSIVE LitType(_)
 LitType(v) ==
@@ -395,8 +429,8 @@ Dnf(body) ==
 RuleInfer1(r, p, ctx) ==
   LET s == SweepFix(r, p, ctx, St0, 12)
   IN [head |-> s.head, bad |-> s.st.bad, out |-> s.st.out,
-      ground |-> /\ \A k \in (DOMAIN s.st.env) \ {"$"} : IsGround(s.st.env[k])
-                 /\ \A f \in (DOMAIN s.head) \ {"$"} : IsGround(s.head[f])]
+      ground |-> /\ \A k \in (DOMAIN s.st.env) \ {"$"} : Settled(s.st.env[k])
+                 /\ \A f \in (DOMAIN s.head) \ {"$"} : Settled(s.head[f])]
 
 RuleInfer(r, p, ctx) ==
   LET bodies == Dnf(r.body)
@@ -437,7 +471,7 @@ RoundOnce(prog, sig, dev) ==
                           ELSE {"rules of " \o p \o " have different columns"}
                  cols == [f \in DOMAIN sg[p] |->
                             IF f \in DOMAIN ri.head
-                            THEN MeetD(sg[p][f], ri.head[f], "closed_records_widen" \in dev)
+                            THEN MeetD(sg[p][f], ri.head[f], dev)
                             ELSE sg[p][f]]
                  clash == {"column " \o f \o " of " \o p : f \in {g \in DOMAIN cols : Tg(cols[g]) = "Bad"}}
                  cols2 == [f \in DOMAIN cols |-> IF Tg(cols[f]) = "Bad" THEN sg[p][f] ELSE cols[f]]
@@ -462,14 +496,14 @@ Visible(prog, sig) ==
   [p \in DOMAIN sig |-> [f \in (DOMAIN sig[p]) \ HiddenOf(prog, p) |-> sig[p][f]]]
 
 (* [ok, sig, bad, det, outside]: sig - the types of the (printed) columns;  *)
-(* det - every column and every variable ended ground, i.e. the program     *)
+(* det - every column and every variable ended Settled, i.e. the program     *)
 (* determines its types ("fully determined"); outside - a construct         *)
 (* without a typing rule was met (no verdict).                              *)
 InferDev(prog, dev) ==
   LET r == Rounds(prog, Sig0(prog), dev, Len(prog.preds) + 3)
   IN [ok |-> r.bad = {}, sig |-> Visible(prog, r.sig), bad |-> r.bad, outside |-> r.out,
       det |-> r.bad = {} /\ r.ground /\ ~r.out
-              /\ \A p \in DOMAIN r.sig : \A f \in DOMAIN r.sig[p] : IsGround(r.sig[p][f])]
+              /\ \A p \in DOMAIN r.sig : \A f \in DOMAIN r.sig[p] : Settled(r.sig[p][f])]
 
 Infer(prog) == InferDev(prog, {})
 WellTyped(prog) == Infer(prog).ok
@@ -479,7 +513,7 @@ Signature(prog, p) == Infer(prog).sig[p]
 (* gamma: the column types someone (the program generator) claims.  The    *)
 (* program types under gamma iff propagation started from gamma (only the  *)
 (* argument columns of aggregated fields unknown) meets no clash, leaves    *)
-(* gamma as it is and leaves no variable or column without a ground type:  *)
+(* gamma as it is and leaves no variable or column unsettled:               *)
 (* every rule then yields exactly gamma for its head.                      *)
 WellTypedUnder(prog, gamma) ==
   /\ DOMAIN gamma = PredNames(prog)
@@ -489,7 +523,7 @@ WellTypedUnder(prog, gamma) ==
          r == Rounds(prog, start, {}, Len(prog.preds) + 3)
      IN /\ r.bad = {} /\ r.ground /\ ~r.out
         /\ Visible(prog, r.sig) = gamma
-        /\ \A p \in DOMAIN r.sig : \A f \in DOMAIN r.sig[p] : IsGround(r.sig[p][f])
+        /\ \A p \in DOMAIN r.sig : \A f \in DOMAIN r.sig[p] : Settled(r.sig[p][f])
 
 -----------------------------------------------------------------------------
 (* Values (LValues' tagged values as the harness decodes what SQLite       *)
@@ -503,6 +537,10 @@ Inhabits(v, t) ==
        [] Tg(t) = "Str" -> v[1] = "s"
        [] Tg(t) = "Bool" -> v[1] = "n" /\ v[2] \in {0, 1}
        [] Tg(t) = "L" -> v[1] = "l" /\ \A i \in 1..Len(v[2]) : Inhabits(v[2][i], t[2])
+       [] Tg(t) = "O" -> /\ v[1] = "r"
+                         /\ Fields(t) \subseteq {v[2][i][1] : i \in 1..Len(v[2])}
+                         /\ \A i \in 1..Len(v[2]) :
+                              v[2][i][1] \in Fields(t) => Inhabits(v[2][i][2], t[2][v[2][i][1]])
        [] Tg(t) = "R" -> /\ v[1] = "r"
                          /\ {v[2][i][1] : i \in 1..Len(v[2])} = Fields(t)
                          /\ \A i \in 1..Len(v[2]) : Inhabits(v[2][i][2], t[2][v[2][i][1]])
